@@ -1039,6 +1039,17 @@ where
 	if ea.len() >= 2 {
 		rep.nontrivial(hash64(&(family, &ea)));
 	}
+	// every way of obtaining A's bytes counts
+	let ua = a.using_encoded(|x| x.to_vec());
+	let mut ta = Vec::new();
+	a.encode_to(&mut ta);
+	if ua != eb || ta != eb || a.encoded_size() != eb.len() {
+		rep.violation(
+			&format!("encode-like-entry-points:{family}"),
+			format!("{family}: A through using_encoded gives {}, through encode_to {}, encoded_size {}; the B value encodes to {}", hex(&ua[..ua.len().min(48)]), hex(&ta[..ta.len().min(48)]), a.encoded_size(), hex(&eb[..eb.len().min(48)])),
+			jobj(&[("property", jstr("C16")), ("family", jstr(family)), ("b", jstr(&hex(&eb)))]),
+		);
+	}
 	if ea != eb {
 		rep.violation(
 			&format!("encode-like:{family}"),
@@ -1185,6 +1196,12 @@ pub fn c16(ctx: &Ctx) {
 		let arr: [String; 3] = gen_of(&mut rng);
 		let arr_refs: [&String; 3] = [&arr[0], &arr[1], &arr[2]];
 		like_dec("[T;N] ~ [U;N]", &arr_refs, &arr, &mut rep);
+		let parr: [u32; 3] = gen_of(&mut rng);
+		like_dec("&[u32;3] ~ [u32;3]", &&parr, &parr, &mut rep);
+		like_dec("Box<[u32;3]> ~ [u32;3]", &Box::new(parr), &parr, &mut rep);
+		let parr2: [i128; 2] = gen_of(&mut rng);
+		like_dec("Rc<[i128;2]> ~ [i128;2]", &Rc::new(parr2), &parr2, &mut rep);
+		like_dec("([f64;2],) ~ ([f64;2],)", &(&[1.5f64, -0.0],), &([1.5f64, -0.0],), &mut rep);
 		like_dec("(A,) ~ (A',)", &(&x,), &(x,), &mut rep);
 		like_dec("(A,B) ~ (A',B')", &(&x, &s), &(x, s.clone()), &mut rep);
 		like_dec("(A,B,C) ~ ...", &(&x, Box::new(s.clone()), &v8), &(x, s.clone(), v8.clone()), &mut rep);
